@@ -111,3 +111,106 @@ Proof.
     + exact (NoDup_concat_disjoint L ND c' c _ Lt Hc I M).
 Qed.
 End Classes.
+
+(* ------------------------------------------------------------------ linkage-class deficiencies *)
+
+Lemma cvec_length ro net iso e : length (cvec ro net iso e) = length (species_order net iso).
+Proof. unfold cvec. apply map_length. Qed.
+
+Lemma complexes_length net iso v : In v (fst (complex_graph net iso)) -> length v = length (species_order net iso).
+Proof.
+  pose proof (complex_graph_inv net iso) as H. destruct (complex_graph net iso) as [cs arcs]. simpl.
+  destruct H as (_ & Hin & _ & _). intros I. apply Hin in I. destruct I as (e & _ & [-> | ->]); apply cvec_length.
+Qed.
+
+Lemma vsub_nth a b i : length a = length b -> nth i (vsub a b) 0%Z = (nth i a 0 - nth i b 0)%Z.
+Proof.
+  intros E. unfold vsub.
+  change 0%Z with ((fun p : Z * Z => (fst p - snd p)%Z) (0%Z, 0%Z)) at 1. rewrite map_nth, combine_nth by exact E. reflexivity.
+Qed.
+
+Lemma is_zero_vec_nth d i : is_zero_vec d = true -> nth i d 0%Z = 0%Z.
+Proof.
+  unfold is_zero_vec. rewrite forallb_forall. intros H.
+  destruct (Nat.lt_ge_cases i (length d)) as [Lt|Ge]; [|apply nth_overflow; exact Ge].
+  apply Z.eqb_eq. apply H. apply nth_In. exact Lt.
+Qed.
+
+(** the difference vectors of the class with number c *)
+Definition cdiffs (net : list rxn) (iso : list str) (c : nat) : list (list Z) :=
+  let cs := fst (complex_graph net iso) in
+  let arcs := snd (complex_graph net iso) in
+  class_diffs cs arcs (nth c (linkage_classes arcs (length cs)) []).
+
+(** every column of build_S is zero or one of the difference vectors of some linkage class *)
+Lemma column_in_class_diffs net iso j : j < length (reaction_order net) ->
+  let m := length (species_order net iso) in
+  let L := linkage_classes (snd (complex_graph net iso)) (length (fst (complex_graph net iso))) in
+  (forall i, i < m -> nth j (nth i (build_S net iso) []) 0%Z = 0%Z) \/
+  exists c t, c < length L /\ t < length (cdiffs net iso c) /\
+    forall i, i < m -> nth j (nth i (build_S net iso) []) 0%Z = nth i (nth t (cdiffs net iso c) []) 0%Z.
+Proof.
+  intros Hj m L. unfold cdiffs. fold L.
+  set (cs := fst (complex_graph net iso)) in *. set (arcs := snd (complex_graph net iso)) in *.
+  pose proof (complex_graph_arcs_ok net iso) as OK. fold cs arcs in OK.
+  destruct (arc_uv_spec net iso j Hj) as (Hu & Hv & Ia & _). fold cs arcs in Hu, Hv, Ia.
+  set (u := arc_u net iso j) in *. set (v := arc_v net iso j) in *.
+  set (d := vsub (nth v cs []) (nth u cs [])).
+  assert (Ed : forall i, i < m -> nth j (nth i (build_S net iso) []) 0%Z = nth i d 0%Z).
+  { intros i Hi. rewrite (S_entry_complexes net iso i j Hi Hj). fold cs u v. unfold d. rewrite vsub_nth; auto.
+    rewrite !(complexes_length net iso) by (apply nth_In; assumption). reflexivity. }
+  destruct (is_zero_vec d) eqn:Z0.
+  - left. intros i Hi. rewrite (Ed i Hi). apply is_zero_vec_nth. exact Z0.
+  - right. destruct (linkage_spec arcs (length cs) OK) as (_ & Q2 & _ & _). fold L in Q2.
+    assert (X : In (nn u) (concat L)) by (apply Q2; eauto).
+    apply in_concat in X. destruct X as (cl & Icl & Iu).
+    destruct (In_nth L cl [] Icl) as (c & Hc & Ec). exists c.
+    assert (Mu : mem (nn u) (nth c L []) = true) by (apply mem_spec; rewrite Ec; exact Iu).
+    assert (Mv : mem (nn v) (nth c L []) = true).
+    { pose proof (cls_arc arcs (length cs) OK c u v Hc Ia) as E. unfold cls in E. fold L in E. congruence. }
+    assert (Id : In d (class_diffs cs arcs (nth c L []))).
+    { unfold class_diffs. apply in_flat_map. exists (u, v). split; [exact Ia|]. simpl. rewrite Mu, Mv. simpl.
+      fold d. rewrite Z0. left. reflexivity. }
+    destruct (In_nth _ _ [] Id) as (t & Ht & Et). exists t. split; auto. split; auto.
+    intros i Hi. rewrite Et. apply Ed. exact Hi.
+Qed.
+
+(** sum of the class deficiencies *)
+Lemma zsum_linkage_deficiencies L : forall ranks, length ranks = length L ->
+  zsum (linkage_deficiencies L ranks) = (Z.of_nat (length (concat L)) - Z.of_nat (length L) - Z.of_nat (list_sum ranks))%Z.
+Proof.
+  unfold linkage_deficiencies. induction L as [|c L IH]; intros [|r ranks] E; simpl in *; try discriminate; auto.
+  rewrite IH by lia. rewrite app_length. lia.
+Qed.
+
+Lemma NoDup_nodes k : NoDup (nodes k).
+Proof. unfold nodes. apply FinFun.Injective_map_NoDup; [intros a b; apply nn_inj | apply seq_NoDup]. Qed.
+
+Lemma concat_classes_length net iso :
+  let cs := fst (complex_graph net iso) in
+  length (concat (linkage_classes (snd (complex_graph net iso)) (length cs))) = length cs.
+Proof.
+  intros cs. pose proof (complex_graph_arcs_ok net iso) as OK. fold cs in OK.
+  destruct (linkage_spec _ _ OK) as (ND & Q2 & _ & _).
+  transitivity (length (nodes (length cs))); [|apply nodes_length]. apply Permutation_length. apply NoDup_Permutation; auto; [apply NoDup_nodes|].
+  intros y. rewrite Q2, nodes_in. reflexivity.
+Qed.
+
+Definition dummy_cert : rcert := RCert 0 [] [] [] [] 0%Z.
+
+(** what an accepted certificate bundle says *)
+Lemma certs_ok_spec net iso rc ccs : certs_ok net iso rc ccs = true ->
+  let m := length (species_order net iso) in
+  let L := linkage_classes (snd (complex_graph net iso)) (length (fst (complex_graph net iso))) in
+  rank_checked m (length (reaction_order net)) (build_S net iso) rc = true /\
+  length ccs = length L /\
+  forall c, c < length L -> rank_checked (length (cdiffs net iso c)) m (cdiffs net iso c) (nth c ccs dummy_cert) = true.
+Proof.
+  unfold certs_ok, cdiffs. destruct (complex_graph net iso) as [cs arcs]. simpl.
+  intros H. apply andb_prop in H. destruct H as [H H3]. apply andb_prop in H. destruct H as [H1 H2].
+  apply Nat.eqb_eq in H2. split; auto. split; auto. intros c Hc.
+  rewrite forallb_forall in H3.
+  specialize (H3 (nth c (combine (linkage_classes arcs (length cs)) ccs) ([], dummy_cert))).
+  rewrite combine_nth in H3 by (symmetry; exact H2). simpl in H3. apply H3.
+  rewrite <- combine_nth by (symmetry; exact H2). apply nth_In. rewrite combine_length. lia.
+Qed.
